@@ -1438,7 +1438,7 @@ def is_zero_term(t):
 
 class ArgMax:
     __slots__ = ("loop", "ifnode", "cmp", "best", "cur", "idx_var", "idx_val", "orient_ok", "best_gets_cur", "magnitude_ok",
-                 "detail", "var", "lo", "hi", "fresh")
+                 "detail", "var", "lo", "hi", "fresh", "nan")
 
 
 def find_argmax(pdb, ctx, loop):
@@ -1455,6 +1455,14 @@ def find_argmax(pdb, ctx, loop):
         cands.append(strip(tail))
     for ifn in cands:
         c = strip(ifn["cond"])
+        nan_side = None
+        if c.get("k") == "Binary" and c.get("op") == "||":
+            # `cur.is_nan() || best < cur`: the update is also taken for a NaN candidate
+            l_, r_ = strip(c["l"]), strip(c["r"])
+            for cmp_, other in ((l_, r_), (r_, l_)):
+                if cmp_.get("k") == "Binary" and cmp_.get("op") in ORDERED and other.get("k") == "MethodCall" and other.get("name") == "is_nan" and not other.get("args"):
+                    c, nan_side = cmp_, other
+                    break
         if c.get("k") != "Binary" or c["op"] not in ORDERED:
             continue
         # the variable(s) assigned in the branch
@@ -1502,6 +1510,7 @@ def find_argmax(pdb, ctx, loop):
                 if [id(L) for L in enclosing_loops(a_)] == search_nest and _npos(a_) < _npos(loop) and a_.get("k") == "Assign":
                     return True
             return False
+        am.nan = nan_side is not None and _same_value(ctx, ctx.term(nan_side["recv"]), am.cur)
         am.fresh = fresh(am.best) and fresh(am.idx_var)
         am.magnitude_ok = am.magnitude_ok and am.fresh
         am.detail = "compare %s %s %s; best=%s gets %s; index=%s gets %s; candidates |.|: %s; initial value(s) of best: %s" % (
@@ -1774,6 +1783,102 @@ def _first_index_node(n):
     if n0.get("k") == "MethodCall" and callee_generic(n0) in CLONE_FNS:
         return _first_index_node(n0["recv"])
     return n0
+
+
+def _subst_len0(t, lens):
+    """t with every length atom in `lens` replaced by 0 (linear parts renormalised)."""
+    return subst_term(t, {l: num(0) for l in lens})
+
+
+def _impossible_at_len0(f, lens):
+    """A comparison fact over usize terms that cannot hold once the given lengths are 0 (e.g. i < len)."""
+    if f[0] != "cmp":
+        return False
+    op, a, b = f[1], _subst_len0(f[2], lens), _subst_len0(f[3], lens)
+    if op in ("<", "<="):
+        L = lin_sub(b, a)
+        if op == "<":
+            L = lin_add(L, num(-1))
+        c, atoms = lin_parts(L)            # need L >= 0 with every atom >= 0
+        return c < 0 and all(k <= 0 for k in atoms.values())
+    if op == "==":
+        d = lin_sub(a, b)
+        c, atoms = lin_parts(d)
+        return (not atoms) and c != 0
+    if op == "!=":
+        return a == b
+    return False
+
+
+def rule_empty_safe(rep, pdb, fn, key, lens, what, skip=()):
+    """No construct of fn is CERTAIN to panic when the container is empty (every length in `lens` is 0) on a path that
+    an empty container can reach:  an unsigned subtraction that is negative at len = 0, an element read at a constant
+    index, `.unwrap()` of a local Result fn whose Err condition is `len == 0`.  A site is ignored when a fact in force
+    there cannot hold for an empty container (inside `for i in 0..len`, behind `if len == 0 { return .. }`, ...).
+    Only definite failures are reported; sites whose outcome depends on other values are not claimed."""
+    ctx = Ctx.for_fn(pdb, fn)
+    n_sites = 0
+    seq = {}
+
+    def reachable(node):
+        for f in facts_x(pdb, ctx, node):
+            if f[0] == "or":
+                if all(any(_impossible_at_len0(g, lens) for g in alt) for alt in f[1]):
+                    return False
+            elif _impossible_at_len0(f, lens):
+                return False
+        return True
+
+    def report(node, msg):
+        k = "%s/%s" % (key, fn["path"])
+        seq[k] = seq.get(k, 0) + 1
+        kk = k if seq[k] == 1 else "%s#%d" % (k, seq[k])
+        rep.bad(kk, "no operation of the property panics on the empty %s (length 0 is inside the property's quantifier)" % what, node, msg)
+
+    for n in walk(fn["body"]):
+        if in_macro(n) or any(a.get("k") == "Closure" for a in ancestors(n)):
+            continue
+        k = n.get("k")
+        if k == "Binary" and n.get("op") == "-" and base_ty(ty_of(n)) == "usize" and not n.get("fn"):
+            n_sites += 1
+            t = _subst_len0(ctx.term(n), lens)
+            c, atoms = lin_parts(t)
+            if c < 0 and all(v <= 0 for v in atoms.values()) and t != ctx.term(n) and reachable(n):
+                report(n, "`%s` is negative for the empty %s: usize underflow (panic in debug builds, a huge index in release)" % (show(ctx.term(n), ctx), what))
+        elif k == "Index":
+            reqs = index_requirements(pdb, ctx, n)
+            if len(reqs) == 1:
+                n_sites += 1
+                v, D, role = reqs[0]
+                if D in lens and not term_vars_any(v) and lin_parts(_subst_len0(v, lens))[0] >= 0 and not lin_parts(_subst_len0(v, lens))[1] and reachable(n):
+                    report(n, "element %s of an empty %s is read" % (show(v, ctx), what))
+        elif k == "MethodCall" and n.get("name") in ("unwrap", "expect") and str(callee_path(n) or "").startswith("std::result::Result"):
+            inner = strip(n["recv"])
+            p = callee_path(inner) if inner.get("k") in ("MethodCall", "Call") else None
+            cf = pdb.fn(p) if p else None
+            if cf is not None:
+                cond = err_condition(pdb, cf)
+                if cond is not None:
+                    n_sites += 1
+                    cc = Ctx.for_fn(pdb, cf)
+                    args = call_args(inner)
+                    sub = {("param", i): ctx.term(a) for i, a in enumerate(args)}
+                    atoms = cond_atoms(cc, cond, True, sub)
+                    # Err iff all atoms hold; certain at len = 0 if each atom becomes a tautology
+                    certain = bool(atoms) and all(a[0] == "cmp" and a[1] == "==" and _subst_len0(a[2], lens) == _subst_len0(a[3], lens) and (a[2] in lens or a[3] in lens) for a in atoms)
+                    if certain and reachable(n):
+                        report(n, "`%s().%s()` is Err for the empty %s" % (str(p).split("::")[-1], n.get("name"), what))
+    rep.add("%s/%s/sites" % (key, fn["path"]), "subtraction / constant-index / unwrap sites examined for certain failure on the empty %s" % what, True, fn["body"],
+            "sites=%d" % n_sites, where="%s:%d" % (fn["file"], fn["span"][0]), nontrivial=False)
+    return n_sites
+
+
+def term_vars_any(t):
+    from .guards import term_vars
+    return bool(term_vars(t))
+
+
+from .terms import err_condition  # noqa: E402,F401
 
 
 def _npos(n):
